@@ -122,6 +122,18 @@ class Rig(object):
         self.prov_sock.reset()
         self.sim.bump('fault.rst')
 
+    def peer_rst_behind(self):
+        """The peer resets the connection right behind what it has sent (close with SO_LINGER 0
+        or with unread data): the bytes already received stay readable, then the reset shows."""
+        self.sim.log('peer_rst_behind')
+        rx = self.prov_sock.rx
+        if rx.segs:
+            rx.rst_after_segs = True
+        else:
+            rx.rst = True
+        self.peer_sock.closed = True
+        self.sim.bump('fault.rst_behind')
+
     def wire_take(self):
         """Bytes the provider wrote since the last call."""
         if self.peer_sock is None:
